@@ -25,6 +25,9 @@ MarshalDemands(e) ==
       mtb == StrToSeq(e.mt)   mjb == StrToSeq(e.mj) IN
   <<
     <<"H.n",            BIsCanon(n) /\ FitsU64(n)>>,
+    <<"C04.stable",     e.mt2 = e.mt /\ e.mj2 = e.mj>>,
+    <<"C04.held",       e.held = e.mt /\ e.heldj = e.mj>>,
+    <<"C13.held",       e.heldp = FmtSize(n, FormatPretty)>>,            \* marshalling again after the caller overwrote the results
     <<"C04.text_back",  BackIs(e.ut, n)>>,
     <<"C04.json_back",  BackIs(e.uj, n)>>,
     <<"C04.struct",     BackIs(e.cs, n)>>,
